@@ -24,7 +24,7 @@ MODEL = {
     "C07": "Model/Manager.lean (scanHelper on the store model + bookkeeping LTS); Lemmas/Manager.lean",
     "C08": "Model/Feed.lean on Model/Rebroadcast.lean; Lemmas/Feed.lean",
     "C09": "Model/Auth.lean on the store model; Lemmas/Auth.lean",
-    "C10": "Model/Config.lean (deep-embedded Encode / Decode / DiffPoints / MergePoints); Lemmas/ConfigRoundtrip*, ConfigField",
+    "C10": "Model/Config.lean (deep-embedded Encode / Decode / DiffPoints / MergePoints); Lemmas/ConfigRoundtrip*, ConfigField, ConfigDiff, ConfigDiffIdx, ConfigDiffMap",
     "C11": "Model/Config.lean; Lemmas/ConfigTotal.lean",
     "C12": "Model/Proto3.lean, Model/Pb.lean; Lemmas/Pb.lean, Proto3.lean (wire level), PbBytes.lean (message level), Itoa.lean",
     "C13": "Model/Rule.lean (+ Model/Schedule.lean); Lemmas/Rule.lean",
